@@ -134,8 +134,7 @@ def build():
                  'catches them: /verif/seeded/ and DESIGN.md. Exit codes: 0 held, 1 VIOLATION, 2 harness error / '
                  'inconclusive.',
     }
-    if not_applicable:
-        manifest['not_applicable'] = not_applicable
+    manifest['not_applicable'] = not_applicable   # kept explicit: empty - all 20 properties are claimed
     return manifest
 
 
